@@ -302,6 +302,76 @@ func runStopDuringReceive(w *world, topic lib.Topic, packets int) (string, []fin
 	return class, o.findings, o.obs + fmt.Sprintf(" delivered=%d", len(got))
 }
 
+// runFullQueueCase: the send queue of a topic is full (the peer reads slowly and the send service is
+// stuck in Write); a multi-packet Send and a second Send on the same topic are started while it is
+// full, and only then does the queue drain. The two senders run as real goroutines (a sender blocked
+// on a full queue blocks inside a channel operation, where no hook can park it); the harness settles
+// for a moment after each start. The settling time only shapes the scenario: if a sender has not
+// blocked yet the run is a different, equally legal interleaving, and the oracle (every delivered
+// message is a whole message that was sent) holds for all of them.
+func runFullQueueCase(w *world, topic lib.Topic, aPackets, bPackets int, aFirst bool) (string, []finding, string) {
+	w.free = true
+	w.setup(1, nil)
+	defer w.teardown()
+	var all []*sendOp
+	for i := 0; i < K.SendQueueCap; i++ {
+		op := &sendOp{Link: 0, Topic: topic, Size: 8 + i, msg: mkMessage(3, 8+i)}
+		w.sendNow(op)
+		all = append(all, op)
+	}
+	a := &sendOp{Link: 0, Topic: topic, Size: aPackets*K.MaxDataChunkSize - 7, msg: mkMessage(1, aPackets*K.MaxDataChunkSize-7)}
+	b := &sendOp{Link: 0, Topic: topic, Size: (bPackets-1)*K.MaxDataChunkSize + 500, msg: mkMessage(2, (bPackets-1)*K.MaxDataChunkSize+500)}
+	all = append(all, a, b)
+	done := make(chan struct{}, 2)
+	start := func(op *sendOp) {
+		go func() {
+			op.ok = w.links[0].sc.Send(op.Topic, op.msg.payload)
+			op.ran = true
+			done <- struct{}{}
+		}()
+		time.Sleep(40 * time.Millisecond)
+	}
+	if aFirst {
+		start(a)
+		start(b)
+	} else {
+		start(b)
+		start(a)
+	}
+	var got []delivered
+	finished, nd := 0, 0
+	for idle := 0; finished < 2 || idle < 3; {
+		select {
+		case <-done:
+			finished++
+		default:
+		}
+		qs := w.nonEmptyQueues()
+		if len(qs) == 0 {
+			if finished == 2 {
+				idle++
+			}
+			time.Sleep(time.Millisecond)
+			continue
+		}
+		idle = 0
+		w.drain(qs[0])
+		if nd++; nd%200 == 0 {
+			got = append(got, w.readInboxes()...)
+		}
+	}
+	got = append(got, w.readInboxes()...)
+	o := w.judge(all, got, func(op *sendOp) bool { return op.ok })
+	l := w.links[0]
+	if len(l.rErr)+len(l.sErr) > 0 || l.rconn.rd.isClosed() {
+		o.findings = append(o.findings, finding{"C18:valid-traffic-closed-connection", fmt.Sprintf("full-queue scenario closed the connection: receiver errors %v sender errors %v", l.rErr, l.sErr)})
+	}
+	class := fmt.Sprintf("full-queue:%d+%d-packets:all-whole", aPackets, bPackets)
+	// the full observation lists a thousand fillers and depends on goroutine timing: report a summary
+	obs := fmt.Sprintf("delivered=%d of %d sent; A ok=%v B ok=%v", len(got), len(all), a.ok, b.ok)
+	return class, o.findings, obs
+}
+
 func runSequentialSmall(r *mc.Run, w *world) *seqStats {
 	st := &seqStats{outcomes: map[string]int{}}
 	for t := lib.Topic(0); t <= K.HeartbeatTopic; t++ {
@@ -361,6 +431,28 @@ func runSequentialSmall(r *mc.Run, w *world) *seqStats {
 		if k == 2 {
 			r.AddSample(map[string]any{"family": "sequential stop during receive", "case": name, "observation": obs, "verdict": verdict(fs)})
 		}
+	}
+	for _, fq := range []struct {
+		a, b   int
+		aFirst bool
+	}{{3, 1, true}, {2, 1, true}, {2, 2, true}, {3, 1, false}, {2, 2, false}} {
+		name := fmt.Sprintf("full-queue:%d:%d+%d:aFirst=%v", tX, fq.a, fq.b, fq.aFirst)
+		class, fs, obs := runFullQueueCase(w, tX, fq.a, fq.b, fq.aFirst)
+		if len(fs) > 0 {
+			// goroutine timing shapes this scenario: require the same class of finding on re-runs, not the same observation
+			for i := 0; i < 4; i++ {
+				if _, fs2, _ := runFullQueueCase(w, tX, fq.a, fq.b, fq.aFirst); len(fs2) == 0 {
+					fs = nil // not reproducible: an artefact of timing is never reported
+					break
+				}
+			}
+			if len(fs) > 0 {
+				report(r, name, fs[:1], obs)
+			}
+		}
+		st.malformedCases++
+		st.steps += K.SendQueueCap + fq.a + fq.b
+		st.outcomes[class]++
 	}
 	// a sender-side Send on a topic without stream must be refused and put nothing on the wire
 	{
